@@ -78,7 +78,7 @@ CHECKS = {
             'DESIGN.md section 5 C17'),
     'C18': ('interprocedural side-effect summaries with a provenance domain (fresh vs reachable-from-self/parameter access paths) over the resolved call graph; CFG dominance of resets over accumulations followed through call sites and constructor fields; taint of the option containers; presence/None-guard facts by a guard-propagating syntax walk',
             'Part: histories cannot be enumerated statically; decided instead is the effect discipline that makes every history behave. (1) The mutation summary of each of the four Solver getters - every attribute store, item store, in-place method and augmented assignment in the 25 functions they reach, with objects created inside the call excluded and parameters re-rooted at each call site - is empty, and no getter reaches a solve / set-up / variable-creating call: getters are functions of the state left by the last solve, so any order and number of calls returns the same text. (2) Every in-place accumulation that solve() performs on an object that outlives it is dominated, through call sites and constructor arguments up to Solver.solve, by a re-assignment of that attribute to a fresh value; solve() constructs a new solver object on every path before run(), the LP problem and every decision variable are created unconditionally, nothing is created once and kept; no mutation event has an option container on its access path: the second solve builds the same model from the same configuration. (3) Getters do not fail: LP-only attributes are presence-guarded where get_debug reads them and a possibly-None varValue is tested before an ordering comparison (found D11, D12).',
-            'NOT decided: that CBC returns the same optimum values for the same model (A6, determinism of the solver binary); wall-clock fields differ between calls by design and are outside the property. Trusted: ast; A3.',
+            'NOT decided: that CBC returns the same optimum values for the same model (A6, determinism of the solver binary). The timing lines are computed from time stamps stored by solve(), so they too are identical between getter calls (no getter reaches a clock). Trusted: ast; A3.',
             'DESIGN.md section 5 C18'),
 }
 
